@@ -110,3 +110,248 @@ Proof.
   - vm_compute. split; reflexivity.
   - vm_compute. reflexivity.
 Qed.
+
+(* ======================================================================
+   "As soon as the iteration ends by any path the collection is mutable again"
+   WITHIN the function: a fact about compiler output.
+
+   Vocabulary (C06/CodegenIter.v; the code generator is C01/Compile.v's model of
+   internal/compile/compile.go, the machine C01/VM.v's model of interp.go):
+   `gen_body p locals body` is the bytecode of a function body (any nesting of
+   for / while / if / break / continue / return, assignments, expressions with
+   and / or / conditional expressions and list / dict COMPREHENSIONS with any
+   clauses, calls, def statements, load; a lambda body enters as the body
+   `return e`).  `infer` is a forward dataflow over the instruction list that
+   gives every reachable pc the depth of the frame's iterator stack: 0 at entry,
+   +1 after ITERPUSH, -1 after ITERPOP (never below 0), unchanged otherwise, both
+   successors of ITERJMP / CJMP followed, equal depths demanded at every join,
+   every jump inside the code; RETURN has no successor (what is left is drained
+   by the deferred clean-up of C06/Model.v).  `iter_depth_ok` = the dataflow
+   succeeds, `depth_at` = the inferred depth.  `static_ann` is the annotation
+   (#ITERPUSH - #ITERPOP in front of the pc), `ann_ok` its checker (all pcs, dead
+   code included).  `spans_block` lists, from the SOURCE, for every statement at
+   every nesting level (first pc, pc after its last instruction, number of
+   enclosing for statements, is it a for statement).
+   ====================================================================== *)
+From Coq Require Import String.
+From SV Require Import C01.Syntax C01.Values C01.Ref C01.VM C01.Compile.
+From SV Require Import C06.CodegenIter C06.ProofsCodegenIter C06.ProofsCodegenIter2 C06.ProofsCodegenIter3 C06.ProofsCodegenIter4.
+Open Scope nat_scope.
+Open Scope string_scope.
+
+(* For EVERY function body: the generated code passes the dataflow -- so every
+   control-flow path from the ITERPUSH of a loop to an instruction after the loop
+   (exhaustion through ITERJMP, `break`) passes exactly one ITERPOP, `continue`
+   re-enters the ITERJMP with the iterator still pushed, and a `return` inside
+   loops leaves them to the deferred clean-up --; the depth of every reachable
+   pc is the static one; and at the first instruction of every statement as well
+   as right after its last instruction the depth is the number of enclosing for
+   statements (for unreachable statements, e.g. after a `break`, the dataflow
+   assigns nothing and the static annotation still says so).  In particular for a
+   for statement spanning [a, b): depth at b = depth at a. *)
+Theorem codegen_pairs_iterpush :
+  forall (p : program) (locals : list string) (body : list stmt),
+    let code := gen_body p locals body in
+    iter_depth_ok code = true /\
+    depth_at code 0 = Some 0 /\
+    ann_ok code (static_ann code) = true /\
+    (forall pc d, depth_at code pc = Some d -> nth_error (static_ann code) pc = Some d) /\
+    (forall a b d k, List.In (a, b, d, k) (spans_block p locals 0 0 body) ->
+       a <= b /\ b < List.length code /\
+       nth_error (static_ann code) a = Some d /\ nth_error (static_ann code) b = Some d /\
+       (depth_at code a = Some d \/ depth_at code a = None) /\
+       (depth_at code b = Some d \/ depth_at code b = None)).
+Proof. exact codegen_pairs_iterpush_lemma. Qed.
+
+(* What the dataflow means, for ANY bytecode (this is what checks/c06.py evaluates
+   on the real compiler's output): if every function of a program passes it then
+   in every state the machine reaches, every frame on the call stack has exactly
+   `depth_at code pc` iterators on its iterator stack. *)
+Theorem dataflow_sound :
+  forall (cp : cprog) (fname : nat -> string) (nglobals : nat) (s : vstate),
+    codes_ok cp -> reach cp fname (init_state cp nglobals) s ->
+    Forall frame_depth_ok (vs_frames s).
+Proof. exact dataflow_sound_lemma. Qed.
+
+(* Every compiled program satisfies the premise ... *)
+Theorem compiled_codes_ok : forall p : program, codes_ok (compile_prog p).
+Proof. exact compile_codes_ok. Qed.
+
+(* ... hence, in C06's terms: while a compiled function runs, whenever a frame is
+   at the first instruction of a statement, or at the instruction that follows
+   the statement -- reached by exhaustion, by `break`, or past an inner loop --,
+   its iterator stack has as many entries as for statements enclose the statement:
+   the ITERPOP of every loop that has been left has run, and ITERPOP is the call
+   of Iterator.Done (VM.v: `release (it_lock it)`; Model.v: SIterPop -> done), so
+   the collection's itercount has been decremented before the next statement of
+   the same function executes.  (Which collection each stack entry locks, and the
+   arithmetic of itercount, is C06/Model.v's side: locked_rejects,
+   mutation_during_iteration_fails, frame_balanced.) *)
+Theorem compiled_for_exit_depth :
+  forall (p : program) (fname : nat -> string) (nglobals : nat) (s : vstate) (fr : frame)
+         (locals : list string) (body : list stmt) (a b d : nat) (k : bool),
+    reach (compile_prog p) fname (init_state (compile_prog p) nglobals) s ->
+    List.In fr (vs_frames s) ->
+    fr_code fr = gen_body p locals body ->
+    List.In (a, b, d, k) (spans_block p locals 0 0 body) ->
+    (fr_pc fr = a \/ fr_pc fr = b) ->
+    List.length (fr_iters fr) = d.
+Proof. exact compiled_span_depth_lemma. Qed.
+
+(* ---- non-vacuity ---- *)
+Definition ex_opts := {| o_set := true; o_while := true; o_recursion := true; o_toplevel := true |}.
+Definition ex_nm (x : string) := EName x (1, 1).
+(*  for x in l:
+      if a: continue
+      for y in l:
+        if b: break
+        elif c: return y
+        while d:
+          if e: break
+          else: continue
+        [z for z in l if z for w in z]
+      if f: break
+    g()                                                                   *)
+Definition ex_locals := ["x"; "y"; "l"; "a"; "b"; "c"; "d"; "e"; "f"; "g"].
+Definition ex_body : list stmt :=
+  [ SFor (TName "x" (1, 1)) (ex_nm "l")
+      [ SIf (ex_nm "a") [SContinue] [];
+        SFor (TName "y" (2, 1)) (ex_nm "l")
+          [ SIf (ex_nm "b") [SBreak] [SIf (ex_nm "c") [SReturn (Some (ex_nm "y"))] []];
+            SWhile (ex_nm "d") [SIf (ex_nm "e") [SBreak] [SContinue]];
+            SExpr (EComp false (ex_nm "z") (ex_nm "z") (0, 0)
+                     [CFor (TName "z" (3, 1)) (ex_nm "l") (3, 2); CIf (ex_nm "z");
+                      CFor (TName "w" (3, 1)) (ex_nm "z") (3, 3)] [10; 11]) ] (2, 2);
+        SIf (ex_nm "f") [SBreak] [] ] (1, 2);
+    SExpr (ECall (ex_nm "g") [] (9, 9)) ].
+
+(* the dataflow on the concrete nested loop: accepted; the two for statements span
+   [0,63) at depth 0 and [9,56) at depth 1; inside the inner body depth 2, inside
+   the comprehension's two clauses 3 and 4, after each loop the depth is back; and
+   a code whose `break` jumped past the ITERPOP is rejected *)
+Example codegen_example :
+  let code := gen_body {| p_opts := ex_opts; p_body := [] |} ex_locals ex_body in
+  iter_depth_ok code = true /\
+  filter (fun x => snd x) (spans_block {| p_opts := ex_opts; p_body := [] |} ex_locals 0 0 ex_body)
+    = [(0, 63, 0, true); (9, 56, 1, true)] /\
+  map (depth_at code) [0; 2; 9; 11; 13; 37; 44; 53; 56; 63; 67] =
+    [Some 0; Some 1; Some 1; Some 2; Some 2; Some 3; Some 4; Some 2; Some 1; Some 0; Some 0] /\
+  nth_error code 16 = Some (JMP 55) /\ nth_error code 55 = Some ITERPOP /\      (* break -> the ITERPOP *)
+  nth_error code 7 = Some (JMP 2) /\ nth_error code 2 = Some (ITERJMP 62) /\    (* continue -> the ITERJMP *)
+  nth_error code 22 = Some RETURN /\ depth_at code 22 = Some 2 /\               (* return inside two loops *)
+  iter_depth_ok (CodegenIter.set_at 16 (JMP 56) code) = false.
+Proof. vm_compute. repeat split. Qed.
+
+(* the machine on a compiled module (premises of dataflow_sound / compiled_for_exit_depth):
+     for x in [1, 2]:
+       for y in [3, 4]:
+         if y: break
+         else: continue
+       z = x
+   after 12 steps it is in the inner body with two iterators, after 16 steps it has
+   left the inner loop by `break` and is at the statement after it (pc 20, the end
+   of the span [6,20) of the inner for statement) with one iterator, after 36 steps
+   it is past the outer loop (pc 24) with none *)
+Definition ex_module : program := {| p_opts := ex_opts; p_body :=
+  [ SFor (TName "x" (1, 1)) (EList [EInt 1; EInt 2])
+      [ SFor (TName "y" (2, 1)) (EList [EInt 3; EInt 4]) [ SIf (ex_nm "y") [SBreak] [SContinue] ] (2, 2);
+        SAssign (TName "z" (3, 1)) (ex_nm "x") (3, 2) ] (1, 2) ] |}.
+
+Example machine_example :
+  let cp := compile_prog ex_module in
+  let fname := fun _ : nat => "m" in
+  let at_ k := match nsteps cp fname k (init_state cp 3) with
+               | Some s => map (fun fr => (fr_pc fr, List.length (fr_iters fr))) (vs_frames s)
+               | None => [] end in
+  codes_ok cp /\
+  (exists s, reach cp fname (init_state cp 3) s /\ nsteps cp fname 16 (init_state cp 3) = Some s) /\
+  List.In (6, 20, 1, true) (spans_block ex_module (layout_top ex_module) 0 0 (p_body ex_module)) /\
+  fc_code (cp_top cp) = gen_body ex_module (layout_top ex_module) (p_body ex_module) /\
+  at_ 12 = [(12, 2)] /\ at_ 16 = [(20, 1)] /\ at_ 36 = [(24, 0)].
+Proof.
+  split; [apply compile_codes_ok|]. split.
+  - destruct (nsteps (compile_prog ex_module) (fun _ => "m") 16 (init_state (compile_prog ex_module) 3)) as [s|] eqn:E.
+    + exists s. split; [eapply nsteps_reach; eauto | reflexivity].
+    + vm_compute in E. discriminate.
+  - vm_compute. repeat split. right. left. reflexivity.
+Qed.
+
+(* ---- the iterator stack is a stack ----
+   `locks fr` = the locks (collection identities, None for tuples / ranges) held by
+   the iterators of a frame, newest first; `act h s` = the frame at height h of the
+   call stack (an activation); `run_keeps cp fname h d s s'` = a run of the machine
+   from s to s' during which that activation stays alive and never has fewer than
+   d iterators; `oldest d l` = the d oldest entries of l. *)
+
+(* ITERPOP is the call of Iterator.Done: it removes the newest iterator of the
+   running frame and releases exactly its lock *)
+Theorem iterpop_releases :
+  forall (cp : cprog) (fname : nat -> string) (f : frame) (rest : list frame) (g : genv) (w : world) (s' : vstate),
+    exec_insn cp fname ITERPOP f rest g w = Next s' ->
+    exists it its f', fr_iters f = it :: its /\ vs_frames s' = f' :: rest /\ fr_iters f' = its /\
+                      vs_w s' = release (it_lock it) w.
+Proof. exact iterpop_releases_lemma. Qed.
+
+(* any program, any run: while an activation keeps at least d iterators its d
+   oldest locks do not change (instructions of this frame only push and pop at the
+   top; calls made from it and returns into it leave its stack alone) *)
+Theorem iter_stack_discipline :
+  forall (cp : cprog) (fname : nat -> string) (h d : nat) (s s' : vstate),
+    run_keeps cp fname h d s s' ->
+    forall f f', act h s = Some f -> act h s' = Some f' ->
+      d <= List.length (fr_iters f') /\ oldest d (locks f) = oldest d (locks f').
+Proof. exact run_keeps_oldest_lemma. Qed.
+
+(* compiled code: take a statement spanning [a, b) at static depth d -- a for
+   statement in particular -- and a run that starts with the activation at a and
+   ends with it at b without leaving an enclosing loop in between (never fewer than
+   d iterators).  Then the activation holds at b exactly the locks it held at a:
+   every iterator the statement pushed has been popped, i.e. Done has been called
+   on it (iterpop_releases), whether the loop ended by exhaustion or by break; the
+   hypothesis on the depth needs no check at a and b themselves
+   (compiled_for_exit_depth). *)
+Theorem compiled_stack_restored :
+  forall (p : program) (fname : nat -> string) (nglobals h : nat) (s s' : vstate) (f f' : frame)
+         (locals : list string) (body : list stmt) (a b d : nat) (k : bool),
+    reach (compile_prog p) fname (init_state (compile_prog p) nglobals) s ->
+    run_keeps (compile_prog p) fname h d s s' ->
+    act h s = Some f -> act h s' = Some f' ->
+    fr_code f = gen_body p locals body -> fr_code f' = gen_body p locals body ->
+    List.In (a, b, d, k) (spans_block p locals 0 0 body) ->
+    fr_pc f = a -> fr_pc f' = b ->
+    locks f' = locks f.
+Proof. exact compiled_stack_restored_lemma. Qed.
+
+(* non-vacuity: in ex_module the inner for statement spans [6,20) at depth 1; the
+   machine is at pc 6 after 6 steps holding the lock of the outer list (object 0),
+   runs 10 steps through the inner loop (two iterators, the second on object 1) and
+   its break, never with fewer than 1 iterator, and stands at pc 20 holding again
+   exactly the outer lock; object 1's iterator count is back to 0 *)
+Example stack_example :
+  let cp := compile_prog ex_module in
+  let fname := fun _ : nat => "m" in
+  exists s s' f f',
+    reach cp fname (init_state cp 3) s /\ run_keeps cp fname 0 1 s s' /\
+    act 0 s = Some f /\ act 0 s' = Some f' /\
+    fr_code f = gen_body ex_module (layout_top ex_module) (p_body ex_module) /\
+    fr_pc f = 6 /\ fr_pc f' = 20 /\ locks f = [Some 2] /\ locks f' = [Some 2] /\
+    (exists sm fm, nsteps cp fname 6 s = Some sm /\ act 0 sm = Some fm /\ locks fm = [Some 3; Some 2]) /\
+    get_obj (vs_w s') 3 = Some (OList [VInt 3; VInt 4] 0).
+Proof.
+  cbv zeta.
+  destruct (nsteps (compile_prog ex_module) (fun _ => "m") 6 (init_state (compile_prog ex_module) 3)) as [s|] eqn:E;
+    [|vm_compute in E; discriminate].
+  destruct (keeps_n (compile_prog ex_module) (fun _ => "m") 0 1 10 s) as [s'|] eqn:E';
+    [|vm_compute in E; inversion E; subst; vm_compute in E'; discriminate].
+  destruct (act 0 s) as [f|] eqn:A; [|vm_compute in E; inversion E; subst; vm_compute in A; discriminate].
+  destruct (act 0 s') as [f'|] eqn:A';
+    [|vm_compute in E; inversion E; subst; vm_compute in E'; inversion E'; subst; vm_compute in A'; discriminate].
+  exists s, s', f, f'.
+  split; [eapply nsteps_reach; eauto|]. split; [eapply keeps_n_sound; eauto|].
+  split; [reflexivity|]. split; [reflexivity|].
+  vm_compute in E; inversion E; subst; clear E.
+  vm_compute in E'; inversion E'; subst; clear E'.
+  vm_compute in A; inversion A; subst; clear A.
+  vm_compute in A'; inversion A'; subst; clear A'.
+  vm_compute. repeat split. do 2 eexists. repeat split.
+Qed.
